@@ -258,6 +258,8 @@ package sugardb
 //@   requires ctx != nil && (replay ==> hasdb(ctx))
 //@   assert @getHandlerFuncParams#0 {C20,C02} handler-db: hasdb(arg1) && dbof(arg1) == old(cmddb(server, ctx, conn, replay, embedded))
 //@   assert @getHandlerFuncParams#0 {C07} local-only-if-unreplicated: standalone(server) || !synchronize
+//@   requires {C05} atomic(server.stateMutationInProgress) == 0
+//@   assert @return {C05,C03} mutation-flag-lowered: internal.iswritecmd(command, subCommand) ==> atomic(server.stateMutationInProgress) == 0
 //@   assert @getHandlerFuncParams#0 {C12} subcmd-arity: ok ==> len(cmd) >= 2
 //@   assert @raftApplyCommand#0 {C07,C20} replicated-db: hasdb(arg1) && dbof(arg1) == old(cmddb(server, ctx, conn, replay, embedded)) && arg2 == cmd
 //@   assert @LogCommand#0 {C02,C20} logged-db: arg1 == old(cmddb(server, ctx, conn, replay, embedded)) && !replay
